@@ -12,6 +12,7 @@ VARIABLE hist
 
 GenWSizes == @@WSIZES@@
 GenRSizes == @@RSIZES@@
+GenVias == @@VIAS@@
 PrintAll == @@PRINTALL@@     \* FALSE (simulation): print a behaviour only when it has MaxOps calls
 
 GenInit == Init /\ hist = <<>>
